@@ -79,6 +79,8 @@ struct KeyGenParams {
     uint64_t U = 0;          ///< largest position
     size_t eps = 4;          ///< epsilon of the configuration, motifs are sized against it
     int chunks = 1;          ///< simulated parallelism; >1 and n >= 2^15 places motifs on the chunk seams
+    bool short_segments = false; ///< heavy-tailed gaps only: about one segment per 2*eps+1..2*eps+3 keys (many segments, so
+                                 ///< that an upper level of the recursive index reaches the chunking threshold)
 };
 
 enum Motif { M_AP, M_STAIRS, M_DUPRUN, M_EXPGAP, M_DENSEGAP, M_WALK, M_DUPWALK, M_COUNT };
@@ -99,6 +101,7 @@ inline std::vector<uint64_t> gen_positions(const KeyGenParams &p, Rng &cfg, Rng 
     unsigned mask = 0;
     while (mask == 0) mask = (unsigned) cfg.below(1u << M_COUNT);
     if (cfg.chance(150)) mask = 1u << cfg.below(M_COUNT); // single-motif runs
+    if (p.short_segments) mask = 1u << M_WALK;
     std::vector<int> enabled;
     for (int m = 0; m < M_COUNT; ++m) if (mask >> m & 1) enabled.push_back(m);
 
@@ -114,6 +117,7 @@ inline std::vector<uint64_t> gen_positions(const KeyGenParams &p, Rng &cfg, Rng 
     }
     bool end_at_top = cfg.chance(120);   // force ... max-2, max-1 at the end
     unsigned gapbits = (unsigned) cfg.below(U > (1ull << 40) ? 62 : (U > 70000 ? 24 : 6)) + 1;
+    if (p.short_segments) gapbits = U > (1ull << 40) ? 40 : 12;
 
     auto adv = [&](uint64_t gap) { cur = (U - cur < gap) ? U : cur + gap; };
     auto emit = [&]() { out.push_back(cur); };
@@ -187,7 +191,7 @@ inline std::vector<uint64_t> gen_positions(const KeyGenParams &p, Rng &cfg, Rng 
                 break;
             }
             case M_WALK: {
-                int kind = (int) work.below(3);
+                int kind = p.short_segments ? 2 : (int) work.below(3);
                 uint64_t g = work.range(1, 50);
                 for (size_t i = 0; i < len; ++i) {
                     uint64_t gap = kind == 0 ? work.range(1, g) : kind == 1 ? (uint64_t) (1 + __builtin_ctzll(work.next() | (1ull << 40))) : work.magnitude(gapbits);
@@ -252,7 +256,42 @@ inline std::vector<uint64_t> gen_positions(const KeyGenParams &p, Rng &cfg, Rng 
         }
     }
 
+    // Stretch: map the sequence affinely onto (a large part of) the whole universe. Motif-built sequences span a small
+    // part of the key range; data spread over the full range (like uniformly random keys) is what makes the last
+    // segment's prediction at max-1 fall short of n, i.e. what makes build() append the closing segment.
+    bool stretched = false;
+    if (p.n >= 2 && out.back() > out.front() && cfg.chance(250)) {
+        stretched = true;
+        unsigned __int128 span = out.back() - out.front();
+        uint64_t target = U;
+        switch (cfg.below(5)) {
+            case 0: target = U; break;                                                  // last key = max-1
+            case 1: target = U - work.range(0, std::min<uint64_t>(U / 2, 3 * (U / p.n) + 2)); break; // last key within a few average gaps of the top
+            case 2: target = U - U / 16; break;
+            case 3: target = U / 2 + work.range(0, U / 2); break;
+            default: target = std::max<uint64_t>(U / 256, 1);
+        }
+        if ((unsigned __int128) target > span) {
+            uint64_t room = U - target;
+            uint64_t off = cfg.coin() ? 0 : (cfg.coin() ? room : work.range(0, room)); // room: ends as close to the top as the target allows
+            uint64_t base0 = out.front();
+            for (auto &v : out) v = off + (uint64_t) (((unsigned __int128) (v - base0) * target) / span);
+        }
+    }
+
+    // The tail of a chunked build: the last n % chunks keys (at most 19) are where the last chunk must absorb the
+    // remainder; make them break the trend of what precedes them (outliers, or a dense burst).
+    bool tail = false;
+    if (p.chunks > 1 && p.n >= (size_t(1) << 15) && work.chance(400)) {
+        size_t t = (size_t) work.range(1, 19);
+        tail = true;
+        if (work.coin()) { for (size_t j = p.n - t; j < p.n; ++j) { uint64_t g = work.magnitude(gapbits + 6) + 1; out[j] = (U - out[j - 1] < g) ? U : out[j - 1] + g; } }
+        else { for (size_t j = p.n - t; j < p.n; ++j) out[j] = out[j - 1] < U ? out[j - 1] + 1 : U; }
+    }
+
     sig.clear();
+    if (tail) sig += "tail+";
+    if (stretched) sig += "stretch+";
     for (int m = 0; m < M_COUNT; ++m) if (used >> m & 1) { sig += motif_name(m); sig += '+'; }
     if (end_at_top) sig += "top+";
     if (seams) sig += "seams+";
